@@ -527,6 +527,16 @@ def interp_err_class(r, mb=None):
                 return (str(r[0]) + ":" if isinstance(r, tuple) else "") + hit[0]
         except Exception:  # noqa: BLE001
             pass
+    if mb is not None and "kernel_util.cc" in msg and "scale_diff / output_scale" in msg:
+        # finding D44 (see fam_numeric.op_variant)
+        try:
+            from . import fam_numeric as _fn
+            m_ = read(mb)
+            hit = [v for v in (_fn.op_variant(m_, sg, op) for sg in m_.subgraphs for op in sg.operators) if "bias-scale-check-vs-tiny-output-scale" in v]
+            if hit:
+                return (str(r[0]) + ":" if isinstance(r, tuple) else "") + hit[0].split(":")[0] + ":bias-scale-check-vs-tiny-output-scale"
+        except Exception:  # noqa: BLE001
+            pass
     if mb is not None and "batch_matmul.cc" in msg and "lhs_data->type" in msg:
         # finding D42: BATCH_MATMUL reading a constant LEFT operand that was stored as int8 next to a float32 / int16 right operand
         try:
